@@ -75,6 +75,39 @@ ENTRIES = [
   "('c03', ('set', (('f0', ('choice', (('a0', ('bits',)),)), 'def', ('a0', (18, 237397))), ('f1', ('octs',), 'opt', None))), {'f0': ('a0', (18, 237397))}, 'DER', (True, 0))"),
 ]
 
+# properties whose monitors drive the real encoders through common.encode_monitored and therefore observe the
+# encoder-side families with symptoms '<codec>:<family>' on generic ('enc', T, v, codec, defMode, chunk) cases
+ENC_PROPS = {
+ 'C04': ('CER', 'DER'), 'C05': ('BER', 'CER', 'DER'), 'C06': ('BER', 'CER', 'DER'), 'C07': ('BER', 'CER', 'DER'),
+ 'C10': ('BER', 'CER', 'DER'), 'C11': ('BER', 'CER', 'DER'), 'C12': ('BER', 'CER', 'DER'), 'C13': ('BER',),
+ 'C16': ('BER', 'CER', 'DER'), 'C17': ('BER', 'CER', 'DER'), 'C18': ('BER', 'CER', 'DER'),
+}
+ENC_WITNESS = {
+ 'stray-eoo': "('enc', ('tag', 'E', 'C', 9, ('int',)), 211, '%s', False, 0)",
+ 'emptyable-optional': "('enc', ('seq', (('f0', ('seq', (('g', ('int',), 'opt', None),)), 'opt', None),)), {%s}, '%s', True, 0)",
+ 'time-fraction-zeros': "('enc', ('useful', 'GeneralizedTime'), '19701027114001.05Z', '%s', True, 0)",
+ 'real-default-float': "('enc', ('seq', (('f0', ('real',), 'def', ('r', 123, 2, 32768)),)), {'f0': ('r', 123, 2, 32768)}, '%s', True, 0)",
+ 'default-constructed': "('enc', ('seq', (('f1', ('seq', ()), 'def', {}),)), {'f1': {}}, '%s', True, 0)",
+ 'default-choice': "('enc', ('set', (('f0', ('choice', (('a0', ('bits',)),)), 'def', ('a0', (18, 237397))), ('f1', ('octs',), 'opt', None))), {'f0': ('a0', (18, 237397))}, '%s', True, 0)",
+}
+for _prop, _codecs in sorted(ENC_PROPS.items()):
+    for _fam in ('stray-eoo', 'emptyable-optional', 'time-fraction-zeros', 'real-default-float',
+                 'default-constructed', 'default-choice'):
+        _c = [c for c in _codecs if not (_fam == 'stray-eoo' and c == 'DER') and not (_fam == 'time-fraction-zeros' and c == 'BER')]
+        if not _c:
+            continue
+        _w = ENC_WITNESS[_fam]
+        if _fam == 'emptyable-optional':
+            # BER: absent component gets materialised; CER/DER: present-and-empty component gets dropped
+            _w = _w % (("" if _c[0] == 'BER' else "'f0': {}"), _c[0])
+        else:
+            _w = _w % _c[0]
+        if _fam in ('default-constructed', 'default-choice'):
+            _syms = ["*:encode-raised:*", "*:in-zone-output-differs-from-emulation", "*value-differs*", "*decode-raised*"]
+        else:
+            _syms = ['%s:%s' % (c.lower(), _fam) for c in _c]
+        ENTRIES.append((_prop, _fam, _syms, _w))
+
 EXTRA = []   # hand-written entries (dicts) for findings outside the families
 
 
